@@ -146,6 +146,8 @@ pub(crate) struct Plan {
     /// how many deadlines may expire while other threads could still run (a slow peer); beyond that a deadline
     /// expires only when nothing else can run (the simulated clock jumps to it)
     pub timeouts: u64,
+    /// readers queue behind a waiting writer (as std's RwLock does on Linux)
+    pub writer_pref: bool,
     pub now: Option<(i64, u32)>,
     pub choices: Vec<usize>,
     pub picks: Vec<usize>,
@@ -166,6 +168,7 @@ impl Default for Plan {
             post_budget: 50_000_000,
             post_rr: true,
             timeouts: 1,
+            writer_pref: false,
             now: None,
             choices: vec![],
             picks: vec![],
@@ -230,6 +233,7 @@ impl Plan {
                 "post_budget" => p.post_budget = v.parse().unwrap_or(p.post_budget),
                 "post_rr" => p.post_rr = v != "0",
                 "timeouts" => p.timeouts = v.parse().unwrap_or(p.timeouts),
+                "writer_pref" => p.writer_pref = v != "0",
                 "now" => {
                     let (s, n) = v.split_once('.').unwrap_or((v, "0"));
                     let mut ns = String::from(n);
@@ -355,7 +359,14 @@ impl Sched {
             }),
             Op::TimedSelect(cs) => self.timeouts_left > 0 || self.select_ready(cs),
             Op::TimedSend(c) => self.timeouts_left > 0 || self.send_ready(*c),
-            Op::RdLock(l) => !self.locks[*l].writer,
+            Op::RdLock(l) => {
+                // std's futex RwLock does not admit new readers while a writer waits; under `writer_pref` the model
+                // does the same (a thread that re-acquires a read guard it already holds then deadlocks, as it may
+                // in production)
+                !self.locks[*l].writer
+                    && !(self.plan.writer_pref
+                        && self.threads.iter().any(|t| matches!(&t.state, TState::Pending(Op::WrLock(w)) if w == l)))
+            }
             Op::WrLock(l) => !self.locks[*l].writer && self.locks[*l].readers == 0,
             Op::Join(t) => matches!(self.threads[*t].state, TState::Finished),
             Op::SigWait => {
